@@ -425,6 +425,9 @@ func updateResolverN(count int, res Resolver, rels []UniRel) Resolver {
 	frt.IfOnly((count > 1000), (func() {
 		PanicNow("type relations do not converge (cyclic type?), give up")
 	}))
+	frt.IfOnly((slice.Length(rels) > 100000), (func() {
+		PanicNow("type relations do not converge (cyclic type?), give up")
+	}))
 	nrels := frt.Pipe(frt.Pipe(rels, (func(_r0 []UniRel) [][]UniRel {
 		return slice.Map((func(_r0 UniRel) []UniRel { return updateResOne(res, _r0) }), _r0)
 	})), slice.Concat)
